@@ -9,7 +9,7 @@ def NoCatch : Prog → Prop
   | .seq a b => NoCatch a ∧ NoCatch b
   | .block _ _ _ b => NoCatch b
   | .tryCatch b cs h => NoCatch b ∧ NoCatch h ∧ Exc.cancelled ∉ cs ∧ Exc.tce ∉ cs
-  | .group _ b => NoCatch b
+  | .group _ _ b => NoCatch b
 
 /-- programs without task groups (no clean-up ever awaits while an exception is in flight) -/
 def Flat : Prog → Prop
@@ -19,7 +19,7 @@ def Flat : Prog → Prop
   | .seq a b => Flat a ∧ Flat b
   | .block _ _ _ b => Flat b
   | .tryCatch b _ h => Flat b ∧ Flat h
-  | .group _ _ => False
+  | .group _ _ _ => False
 
 def Stale (s : TS) : Prop := ∀ m, s.marker = some m → m ∉ s.deadlines
 def Jj (s : TS) : Prop :=
